@@ -42,6 +42,7 @@ type vfAFrame struct {
 	Bigwin bool   `json:"bigwin"`
 	Short  bool   `json:"short"`
 	Incr   uint32 `json:"incr"`
+	Rinc   bool   `json:"rinc"`
 }
 
 func vfPadWrap(pad string, body []byte) ([]byte, byte) {
@@ -200,6 +201,9 @@ func (f vfAFrame) bytes() []byte {
 		p := make([]byte, f.Len)
 		if f.Len >= 4 {
 			binary.BigEndian.PutUint32(p, f.Incr)
+		}
+		if f.Rinc && f.Len >= 1 {
+			p[0] |= 0x80 // reserved bit
 		}
 		return vfFrameBytes(8, 0, f.Sid, f.Rbit, p)
 	case "CONTINUATION":
